@@ -92,6 +92,21 @@ func runOneCrashCase(c crashCase) (class string, detail string) {
 	if c.Idiom {
 		opts = append(opts, genql.IdomaticArrays())
 	}
+	if strings.Contains(c.SQL, "big4k") {
+		// a long table built here (not carried by every case): 4100 rows, one of which has a scalar where the others
+		// have an object, so that a sort key / path read fails on exactly one row
+		rows := make([]any, 4100)
+		for i := range rows {
+			rows[i] = map[string]any{"id": float64(i), "k": map[string]any{"v": float64((i * 7919) % 4099)}, "s": strings.Repeat("a", i%7)}
+		}
+		rows[2050].(map[string]any)["k"] = float64(3)
+		doc := make(map[string]any, len(c.Doc)+1)
+		for k, v := range c.Doc {
+			doc[k] = v
+		}
+		doc["big4k"] = rows
+		c.Doc = doc
+	}
 	q, err := genql.New(c.Doc, c.SQL, opts...)
 	if err != nil {
 		return "error", ""
@@ -200,6 +215,19 @@ var crashCorpus = []string{
 	"SELECT * FROM big40 AS a PARALLEL LEFT JOIN big40 AS b ON a.k != b.k AND crashfall(b.k)",
 	"SELECT x.id AS id FROM big x PARALLEL JOIN big y ON x.id = y.id AND EXISTS (SELECT p.id FROM `<-`.big40 p PARALLEL JOIN `<-`.big40 q ON p.id = q.id)",
 	"SELECT x.id AS id FROM big x PARALLEL JOIN big y ON x.id >= y.id AND EXISTS (SELECT p.id FROM `<-`.big40 p PARALLEL JOIN `<-`.big40 q ON p.id = q.id)",
+	// long inputs: a sort whose key cannot be read on one row of 4100; wildcard patterns that a backtracking matcher
+	// would take for ever on; AWAIT over a subquery / EXISTS / ASYNC call (post-processors registering post-processors)
+	"SELECT * FROM big4k ORDER BY `k.v`",
+	"SELECT id, k FROM big4k ORDER BY `k.v` DESC, id LIMIT 5",
+	"SELECT * FROM big4k WHERE id != 2050 ORDER BY `k.v` LIMIT 3",
+	"SELECT COUNT(*) AS c FROM big4k WHERE s LIKE '%a%a%a%a%a%a%b'",
+	"SELECT id FROM t WHERE 'aaaaaaaaaaaaaaaaaaaaaaaaaaaaaaaaaaaaaaaaaaaaaaaaaaaaaaaaaaaaaaaaaaaaaaaaaaaaaaaaaaaaaaaaaaaaaaaa' LIKE '%a%a%a%a%a%a%a%a%a%a%a%a%a%a%a%a%a%a%a%a%a%a%a%a%b'",
+	"SELECT id FROM t WHERE 'aaaaaaaaaaaaaaaaaaaaaaaaaaaaaaaaaaaaaaaaaaaaaaaaaaaaaaaaaaaaaaaaaaaaaaaaaaaaaaaaaaaaaaaaaaaaaaaa' NOT LIKE '%a_a%a_a%a_a%a_a%a_a%a_a%a_a%a_a%a_a%a_a%a_a%a_a%b'",
+	"SELECT AWAIT((SELECT id FROM `<-.u` LIMIT 1)) AS e FROM t",
+	"SELECT AWAIT(EXISTS (SELECT * FROM items WHERE p > 0)) AS e FROM t",
+	"SELECT AWAIT(ASYNC.crashf(id)) AS e FROM t",
+	"WITH c AS (SELECT AWAIT((SELECT id FROM `<-.u` LIMIT 1)) AS e FROM t) SELECT * FROM c",
+	"SELECT AWAIT((SELECT id FROM `<-.u` LIMIT 1)) AS e FROM t UNION ALL SELECT AWAIT(id) AS e FROM u",
 	// a CTE that reads itself through the backward reference from a row-scoped subquery / EXISTS / IN of its own body
 	"WITH a AS (SELECT id, (SELECT id FROM `<-`.a LIMIT 1) AS x FROM t) SELECT * FROM a",
 	"WITH a AS (SELECT id FROM t WHERE EXISTS (SELECT id FROM `<-`.a)) SELECT * FROM a",
